@@ -774,7 +774,7 @@ func (c *child) ask(line string) (string, bool) {
 			return "", false
 		}
 		return strings.TrimRight(a.s, "\n"), true
-	case <-time.After(10 * time.Minute):
+	case <-time.After(90 * time.Second): // every operation has its own watchdog of 30 s at most
 		return "", false
 	}
 }
